@@ -19,6 +19,14 @@ def shuffle_keys(x, rnd):
     return x
 
 
+def reverse_keys(x):
+    if isinstance(x, dict):
+        return {k: reverse_keys(x[k]) for k in sorted(x, reverse=True)}
+    if isinstance(x, list):
+        return [reverse_keys(v) for v in x]
+    return x
+
+
 def read_outputs(path):
     files = {}
     if os.path.isdir(path):
@@ -85,7 +93,8 @@ def main(tier, seed, replay=None):
     for name, spec in corpus:
         variants = [("base", json.dumps(spec), "json"), ("rerun", json.dumps(spec), "json"),
                     ("perm1", json.dumps(shuffle_keys(spec, rnd)), "json"), ("perm2", json.dumps(shuffle_keys(spec, rnd), indent=3), "json"),
-                    ("yaml", yaml.safe_dump(shuffle_keys(spec, rnd), sort_keys=False, allow_unicode=True), "yaml")]
+                    ("yaml", yaml.safe_dump(shuffle_keys(spec, rnd), sort_keys=False, allow_unicode=True), "yaml"),
+                    ("sorted", json.dumps(spec, sort_keys=True), "json"), ("reversed", json.dumps(reverse_keys(spec), indent=1), "json")]
         if name in ("freeform", "replay"):
             variants += [(f"rerun{k}", json.dumps(spec), "json") for k in range(2, 7)]
         for mode in MODES:
@@ -110,7 +119,7 @@ def main(tier, seed, replay=None):
     for name, spec in corpus:
         for mode in MODES:
             rc0, base, t0 = by[(name, mode, "base")]
-            for v in ["rerun", "perm1", "perm2", "yaml"] + ([f"rerun{k}" for k in range(2, 7)] if name in ("freeform", "replay") else []):
+            for v in ["rerun", "perm1", "perm2", "yaml", "sorted", "reversed"] + ([f"rerun{k}" for k in range(2, 7)] if name in ("freeform", "replay") else []):
                 rc, outs, t = by[(name, mode, v)]
                 n_cmp += 1
                 if rc != rc0:
@@ -127,9 +136,9 @@ def main(tier, seed, replay=None):
                     viol.append((name, spec, f"{name} {mode}: output differs for variant {v} in {diff}: {first}"))
     res.counts.update({"evaluations": len(jobs), "distinct_nontrivial": len(corpus) * len(MODES), "comparisons": n_cmp,
                        "traces_validated_against_impl": len(jobs),
-                       "rule": "corpus = shipped fixtures + feature-grammar specs; for each spec x 4 modes: two separate processes on the same file (fresh hash seeds), two random key-order permutations at every object level (different whitespace), and a YAML re-encoding with permuted keys; outputs compared byte-for-byte with only the `//! Source:` line masked"})
+                       "rule": "corpus = shipped fixtures + feature-grammar specs; for each spec x 4 modes: two separate processes on the same file (fresh hash seeds), two random key-order permutations at every object level (different whitespace), keys sorted, keys reverse-sorted, and a YAML re-encoding with permuted keys; a hand-made spec with free-form JSON values (example/default/const/enum/x-*) in differing key orders and paths with several undeclared template variables gets six extra reruns; outputs compared byte-for-byte with only the `//! Source:` line masked"})
     for name, _ in corpus[:4]:
-        res.sample({"spec": name, "modes": MODES, "variants": ["rerun", "perm1", "perm2", "yaml"]})
+        res.sample({"spec": name, "modes": MODES, "variants": ["rerun", "perm1", "perm2", "yaml", "sorted", "reversed"]})
     res.cov["trusted_base"] = vlib.COMMON_TRUSTED + ["tools/vtool inventory (syntactic: bindings/fields/adaptors of HashMap/HashSet type that are iterated)", "python json/yaml re-serialisation of the same document"]
     res.assumptions = ["PARTIAL: clock, environment, terminal width and real hash seeds are not modelled; covered only by the repeated-process runs",
                        "the theorem is about the parse step (BTreeMap) and the inventoried hash consumers; that every other generator step is a function of the parsed document is Rust's semantics"]
